@@ -261,8 +261,8 @@ Section WithProvider.
         bindM (liftR (std_table names t)) (fun st_ =>
         bindM (get_table_lineage st_) (fun tl =>
           match q_column qc with
-          | Some c => liftR (tl_by_name tl c)
-          | None => fun _ => Err (Crash 4)             (* dict lookup with None *)
+          | Some c => if tl_has_column tl c then liftR (tl_by_name tl c) else fun _ => Err AnalyzerErr
+          | None => fun _ => Err AnalyzerErr          (* has_column(None) is False *)
           end))
     | None =>
         match q_column qc with
